@@ -171,9 +171,11 @@ RDC(w) == Code(w) /\ mode' = "painton" /\ UNCHANGED <<depth, base, disp, ndisp, 
 RU(w, k) ==
   /\ Code(w) /\ mode' = "rollup" /\ depth' = k
   /\ IF mode = "rollup"
-     THEN LET nb == IF base < k THEN k ELSE base IN
+     THEN LET nb    == IF base < k THEN k ELSE base                 \* the window must fit above the base row
+              moved == IF nb = base THEN disp ELSE Shift(disp, Window(base, depth), nb - base, Rows)
+          IN
           /\ base' = nb /\ cur' = <<nb, cur[2]>>
-          /\ disp' = Erase(disp, {x \in DOMAIN disp : x[1] \notin Window(nb, k)})
+          /\ disp' = Erase(moved, {x \in DOMAIN moved : x[1] \notin Window(nb, k)})
           /\ UNCHANGED <<ndisp, pen>>
      ELSE /\ disp' = EmptyMem /\ ndisp' = EmptyMem /\ base' = 15 /\ cur' = <<15, 1>> /\ pen' = DefaultPen
 
@@ -399,10 +401,11 @@ GPac  == /\ \/ ph = "row"
          /\ \E r \in Pick(GRows), d \in Pick(GDescs) : EmitCode(WPac(r, d))
          /\ ph' = "txt" /\ nrow' = nrow + 1 /\ nitem' = 0 /\ lastch' = FALSE /\ UNCHANGED <<style, ncap, clean>>
 
-\* text items; BS and extended characters follow a character ("replace the preceding character")
+\* text items; BS and extended characters follow a character other than a space ("replace the preceding character":
+\* an extended character is sent after its standard-set stand-in)
 GItem == /\ ph = "txt" /\ nitem < GMaxItems
          /\ cur[2] <= 29                                   \* the row stays inside the 32 columns (an item takes up to 3)
-         /\ \/ (\E p \in Pick(GChars) : EmitText(WChars(p[1], p[2]))) /\ lastch' = TRUE
+         /\ \/ \E p \in Pick(GChars) : EmitText(WChars(p[1], p[2])) /\ lastch' = (IF p[2] = 0 THEN p[1] # 32 ELSE p[2] # 32)
             \/ Has("midrow") /\ (\E a \in Pick(GMids) : EmitCode(WMid(a))) /\ lastch' = TRUE
             \/ Has("special") /\ (\E k \in Pick(GSpecials) : EmitCode(WSpecial(k))) /\ lastch' = TRUE
             \/ Has("extended") /\ lastch /\ (\E e \in Pick(GExtendeds) : EmitCode(WExtended(e[1], e[2]))) /\ lastch' = TRUE
